@@ -335,3 +335,52 @@ def transform_tree(src, dst, kind):
         foreign = _foreign_names()
         _Keywordize.sigs = {k: v for k, v in _package_signatures(src).items() if k not in foreign}
     _transform_tree_plain(src, dst, kind)
+
+
+class _SwapIndependent(ast.NodeTransformer):
+    """two adjacent simple assignments `a = <pure expr>; b = <pure expr>` that do not read or write each other's names are exchanged"""
+    PURE = (ast.Name, ast.Constant, ast.Attribute, ast.Subscript, ast.BinOp, ast.UnaryOp, ast.Tuple, ast.List, ast.Compare, ast.BoolOp, ast.Load, ast.Store,
+            ast.operator, ast.unaryop, ast.cmpop, ast.boolop, ast.Slice, ast.expr_context)
+
+    def _simple(self, s):
+        return isinstance(s, ast.Assign) and len(s.targets) == 1 and isinstance(s.targets[0], ast.Name) and all(isinstance(x, self.PURE) for x in ast.walk(s.value))
+
+    def _block(self, stmts):
+        stmts = [self.visit(s) for s in stmts]
+        out, i = [], 0
+        while i < len(stmts):
+            a = stmts[i]
+            b = stmts[i + 1] if i + 1 < len(stmts) else None
+            if b is not None and self._simple(a) and self._simple(b):
+                na, nb = a.targets[0].id, b.targets[0].id
+                ra = {x.id for x in ast.walk(a.value) if isinstance(x, ast.Name)}
+                rb = {x.id for x in ast.walk(b.value) if isinstance(x, ast.Name)}
+                if na != nb and na not in rb and nb not in ra:
+                    out += [b, a]
+                    i += 2
+                    continue
+            out.append(a)
+            i += 1
+        return out
+
+    def generic_visit(self, node):
+        for f in ("body", "orelse", "finalbody"):
+            v = getattr(node, f, None)
+            if isinstance(v, list) and v and isinstance(v[0], ast.stmt):
+                setattr(node, f, self._block(v))
+        if isinstance(node, ast.Try):
+            for h in node.handlers:
+                h.body = self._block(h.body)
+        return node
+
+    def visit_ClassDef(self, node):
+        # class bodies define the public order of attributes; leave them, but visit the methods
+        node.body = [self.visit(s) for s in node.body]
+        return node
+
+    def visit_Module(self, node):
+        node.body = [self.visit(s) for s in node.body]
+        return node
+
+
+TRANSFORMS["swap_independent"] = _SwapIndependent
